@@ -530,8 +530,10 @@ ssize_t comp_read(zckCtx *zck, char *dst, size_t dst_size, bool use_dict) {
         /* If we finished reading and we've reached here, we're done
          * decompressing */
         if(finished_rd) {
-            finished_dc = true;
-            continue;
+            /* The file ended inside a chunk: that is a truncated file, not the
+             * end of the stream */
+            set_fatal_error(zck, "Unexpected end of file inside a chunk");
+            goto read_error;
         }
 
         /* Make sure we don't read beyond current chunk length */
